@@ -1020,6 +1020,14 @@ func (m *Monitors) onSendEvent(n *Node, nm *nodeMon, e *spi.Event) {
 			m.Stats["C07 prepares judged"]++
 			m.needValidNV(n, nm, msg.H, msg.V, string(msg.Hash), "sent PREPARE")
 		}
+		// C04, at the source: a proposal that reached the node as a standalone PREPREPARE is voted for only after this node's
+		// validator approved the block (a NEW_VIEW re-proposing a certified block needs no validation: judged by C07)
+		if _, viaNV := nm.validNV[hv{msg.H, msg.V}][string(msg.Hash)]; msg.V == 0 || (nm.barePP[key] && !viaNV) {
+			m.Stats["C04 votes for standalone proposals judged"]++
+			if !nm.validated[string(msg.Hash)] {
+				m.violate("C04", "voted-for-a-proposal-its-validator-never-approved", "node %s sent PREPARE h=%d v=%d hash=%x for a proposal that arrived as a PREPREPARE; its ValidateBlockProposal never approved that block", n.Id, msg.H, msg.V, short(msg.Hash))
+			}
+		}
 		if nm.prepares[key] == nil {
 			nm.prepares[key] = map[string]bool{}
 		}
